@@ -437,6 +437,8 @@ fn oracles(c: &Case, allow_run: &RunOut, full_bindings: &str, st: &mut Stats, fa
                     }
                     if l.text.contains("_bindgen_ty_") && full_norm.contains(&renumber_anon(&l.text)) {
                         st.anon_renumbered += 1;
+                        let other = full.iter().find(|f| renumber_anon(&f.text) == renumber_anon(&l.text)).map(|f| f.text.clone()).unwrap_or_default();
+                        st.known("anon_type_renumbered", format!("allow-listed: `{}`  full: `{}`  flags {:?} header {}", &l.text[..l.text.len().min(160)], &other[..other.len().min(160)], c.flags, json_str(&format!("{}\n{}", c.inc_h, c.main_h))));
                         continue;
                     }
                     fails.push(Failure {
@@ -727,7 +729,7 @@ fn main() {
     let mut rng = Rng::new(args.seed);
     let mut st = Stats::default();
     let mut fails: Vec<Failure> = vec![];
-    let (n_graphs, n_sets, n_rx) = if thorough { (5000, 10, 60_000) } else { (300, 4, 5000) };
+    let (n_graphs, n_sets, n_rx) = if thorough { (2500, 8, 60_000) } else { (300, 4, 5000) };
 
     let t0 = std::time::Instant::now();
     let mut rx_rng = rng.fork();
